@@ -54,6 +54,7 @@ ASSUMPTIONS = [
 
 HARNESS = 'c19_impl.py'
 FLOATS = ('float', 'float32')
+INTS = ('int64', 'int32')
 
 
 # --------------------------------------------------------------------------- helpers
@@ -135,7 +136,7 @@ def exact_flags(case):
 
 
 # --------------------------------------------------------------------------- plateau generator
-def gen_series(rng, tier, n=None, coord=None, ydtype=None):
+def gen_series(rng, tier, n=None, coord=None, ydtype=None, xdtype='auto'):
     """one series: coordinates (non-uniform, ascending), piecewise-constant levels + noise, steps near the tolerance"""
     if n is None:
         r = rng.random()
@@ -149,16 +150,36 @@ def gen_series(rng, tier, n=None, coord=None, ydtype=None):
         coord = rng.choice(['float'] * 5 + ['float32'] * 2 + ['int'] * 2 + ['datetime'] * 2)
     nice = rng.random() < 0.3
     yd = 'float64'
+    want_xdtype, xdtype = xdtype, None
+    # coordinate layout: independent random steps, or a regular grid (fixed sampling rate) whose interior points are
+    # jittered (the end points, in half of the cases also the first step, stay on the grid), or exactly regular
+    lay = rng.random()
+    layout = 'jittered-grid' if lay < 0.12 else 'uniform' if lay < 0.15 else 'random-steps'
+    grid = layout != 'random-steps'
+    jit = set()
+    if layout == 'jittered-grid':
+        first = rng.choice([1, 2])
+        jit = {i for i in range(first, n - 1) if rng.random() < 0.35}
+        if not jit and n - 1 > first:
+            jit = {rng.randrange(first, n - 1)}
     # coordinates (non-uniform, ascending)
     if coord in FLOATS:
         if nice:
             x = [rng.randint(-64, 64) / 8.0]
-            for _ in range(n - 1):
-                x.append(x[-1] + rng.randint(1, 16) / 8.0)
+            if grid:
+                h = rng.randint(1, 16) / 8.0
+                x = [x[0] + i * h + (rng.choice([-3, -2, -1, 1, 2, 3]) * h / 8 if i in jit else 0.0) for i in range(n)]
+            else:
+                for _ in range(n - 1):
+                    x.append(x[-1] + rng.randint(1, 16) / 8.0)
         else:
             x = [rng.uniform(-50, 50)]
-            for _ in range(n - 1):
-                x.append(x[-1] + loguniform(rng, 0.05, 3.0))
+            if grid:
+                h = loguniform(rng, 0.05, 3.0)
+                x = [x[0] + i * h + (rng.uniform(-0.4, 0.4) * h if i in jit else 0.0) for i in range(n)]
+            else:
+                for _ in range(n - 1):
+                    x.append(x[-1] + loguniform(rng, 0.05, 3.0))
         if coord == 'float32':
             x = [r32(v) for v in x]
         if rng.random() < 0.05 and n > 3:        # ascending, not strictly
@@ -170,23 +191,38 @@ def gen_series(rng, tier, n=None, coord=None, ydtype=None):
             yd = 'float32'
     elif coord == 'int':
         x = [rng.choice([rng.randint(-1000, 1000), 2 ** 40 + rng.randint(0, 10 ** 6)])]
-        for _ in range(n - 1):
-            x.append(x[-1] + rng.randint(1, 9))
+        if want_xdtype == 'int32':
+            x = [rng.randint(-1000, 1000)]
+        if grid:
+            h = rng.randint(3, 9)
+            x = [x[0] + i * h + (rng.choice([-1, 1]) * rng.randint(1, (h - 1) // 2) if i in jit else 0) for i in range(n)]
+        else:
+            for _ in range(n - 1):
+                x.append(x[-1] + rng.randint(1, 9))
+        if abs(x[0]) <= 1000 and rng.random() < 0.35:
+            xdtype = 'int32'
+        if want_xdtype != 'auto':
+            xdtype = want_xdtype
         A = rng.choice([0.25, 0.5, 1.0, 2.0]) if nice else loguniform(rng, 1e-2, 10)
         if nice and rng.random() < 0.4:
-            yd = 'int64'
+            yd = rng.choice(['int64', 'int64', 'int32'])
             A = float(rng.choice([1, 2, 3]))
         elif rng.random() < 0.15:
             yd = 'float32'
     else:
         x = [1_700_000_000_000_000_000 + rng.randint(0, 10 ** 15)]
-        for _ in range(n - 1):
-            x.append(x[-1] + (rng.randint(1, 16) * 2 ** 27 if nice else rng.randint(1, 4_000_000_000)))
+        if grid:
+            h = rng.randint(1, 16) * 2 ** 27 if nice else rng.randint(1000, 4_000_000_000)
+            x = [x[0] + i * h + ((rng.choice([-3, -2, -1, 1, 2, 3]) * (h // 8) if nice else
+                                  rng.choice([-1, 1]) * rng.randint(1, h // 2 - 1)) if i in jit else 0) for i in range(n)]
+        else:
+            for _ in range(n - 1):
+                x.append(x[-1] + (rng.randint(1, 16) * 2 ** 27 if nice else rng.randint(1, 4_000_000_000)))
         A = rng.choice([0.25, 0.5, 1.0, 2.0]) * 2.0 ** -30 if nice else loguniform(rng, 1e-2, 10) * 1e-9
         if rng.random() < 0.15:
             yd = 'float32'
     if ydtype is not None:
-        if ydtype == 'int64' and yd != 'int64':
+        if ydtype in INTS and yd not in INTS:
             A = float(rng.choice([1, 2, 3]))
         yd = ydtype
     ydtype = yd
@@ -199,7 +235,7 @@ def gen_series(rng, tier, n=None, coord=None, ydtype=None):
     level = rng.uniform(-20, 20)
     if nice:
         level = round(level * 16) / 16
-    if ydtype == 'int64':
+    if ydtype in INTS:
         level = float(round(level))
     seg_left = 0
     ramp = False
@@ -213,7 +249,7 @@ def gen_series(rng, tier, n=None, coord=None, ydtype=None):
                 level = y[-1] + rng.choice([-1, 1]) * jump
                 if nice:
                     level = round(level * 64) / 64
-                if ydtype == 'int64':
+                if ydtype in INTS:
                     level = float(round(level))
             y.append(level)
             seg_left -= 1
@@ -230,13 +266,13 @@ def gen_series(rng, tier, n=None, coord=None, ydtype=None):
             v = level + rng.uniform(-a, a)
             if nice:
                 v = level + round((v - level) * 256) / 256
-        if ydtype == 'int64':
+        if ydtype in INTS:
             v = float(round(v))
         y.append(v)
         seg_left -= 1
     if ydtype == 'float32':
         y = [r32(v) for v in y]
-    return {'kind': 'plateau', 'coord': coord, 'ydtype': ydtype, 'xv': x, 'yv': y, 'nice': nice, 'A': A}
+    return {'kind': 'plateau', 'coord': coord, 'ydtype': ydtype, 'xv': x, 'yv': y, 'nice': nice, 'A': A, 'layout': layout, 'xdtype': xdtype}
 
 
 def pick_params(rng, case, A=None):
@@ -281,8 +317,11 @@ def hx(coord, v):
 
 
 def series_payload(case):
-    return {'coord': case['coord'], 'ydtype': case['ydtype'], 'x': [hx(case['coord'], v) for v in case['xv']],
-            'y': [float(v).hex() for v in case['yv']]}
+    d = {'coord': case['coord'], 'ydtype': case['ydtype'], 'x': [hx(case['coord'], v) for v in case['xv']],
+         'y': [float(v).hex() for v in case['yv']]}
+    if case.get('xdtype'):
+        d['xdtype'] = case['xdtype']
+    return d
 
 
 def payload_of(case):
@@ -438,7 +477,7 @@ def gen_history(rng):
         if not s['has_p'] or u < 0.30:
             find_step(k)
         elif u < 0.68:                                   # update the series in place
-            new = gen_series(rng, 'quick', n=n, coord=coord, ydtype=s['ydtype'])
+            new = gen_series(rng, 'quick', n=n, coord=coord, ydtype=s['ydtype'], xdtype=s.get('xdtype'))
             how = rng.choice(['values', 'values', 'data_values', 'data', 'coord', 'coord_values'])
             if how in ('values', 'data_values'):
                 lo = rng.randrange(n)
@@ -485,7 +524,7 @@ def gen_history(rng):
                     st['c'] = rng.choice([1, -5, rng.randint(-10 ** 6, 10 ** 6)])
             elif how == 'event_value':
                 v = rng.choice(s['yv']) + rng.choice([0.0, 1.0, -2.5, rng.uniform(-3, 3)])
-                if s['ydtype'] == 'int64':
+                if s['ydtype'] in INTS:
                     v = float(round(v))
                 elif s['ydtype'] == 'float32':
                     v = r32(v)
@@ -589,8 +628,9 @@ def property_violations(case, obs):
     """compare one observation with the property text (used by search / replay)"""
     bad = []
     if obs.get('fresh_same') is False:
-        bad.append(f'the call on the long-lived object (history step {case.get("hist")}) answers differently from the call on '
-                   f'a fresh deep copy with the same content')
+        h = case.get('hist') or {}
+        bad.append(f'the call on the long-lived object (history step {h.get("step")}, object {h.get("obj")}) answers differently '
+                   f'from the call on a fresh deep copy with the same content')
     if obs.get('input_unchanged') is False:
         bad.append('the call modified its argument')
     if case['kind'] == 'phase':
@@ -738,9 +778,9 @@ def kind_of(c):
 
 
 def gen_cases(rng, tier):
-    n_pl = 640 if tier == 'quick' else 12000
-    n_ph = 240 if tier == 'quick' else 5000
-    n_hi = 75 if tier == 'quick' else 1500
+    n_pl = 600 if tier == 'quick' else 12000
+    n_ph = 220 if tier == 'quick' else 5000
+    n_hi = 70 if tier == 'quick' else 1500
     cases = [gen_plateau(rng, tier) for _ in range(n_pl)] + [gen_phase(rng) for _ in range(n_ph)]
     # a few fixed series: the shapes of the upstream tests and the documented corner cases
     fixed = [
@@ -883,8 +923,8 @@ def correspondence(ctx):
         'evaluations': len(groups['64'][0]) + len(groups['32'][0]),
         'distinct_nontrivial': len(nontrivial),
         'rule': 'random.Random(seed): plateau series of 2..500 points (mostly 5..60), non-uniform ascending float64 / float32 / int64 / '
-                'datetime64[ns] coordinates (5% of float series with repeated coordinates), data float64 / float32 (60% of the '
-                'float32-coordinate series, ~13% of the others) / int64, piecewise-constant levels + noise, '
+                'datetime64[ns] coordinates (a third of the small int64 ones as int32; 85% independent random steps, 12% a regular grid with jittered interior points, 3% exactly regular; 5% of float series with repeated coordinates), data float64 / float32 (60% of the '
+                'float32-coordinate series, ~13% of the others) / int64 / int32, piecewise-constant levels + noise, '
                 'steps at (1 +- 1e-6) x tolerance, ramps (drift guard), 30% on dyadic grids (exact ties); the tolerance is the '
                 'nominal one (30%) or |an actual slope| (42%: a slope EXACTLY at atol) or one ulp above/below it (28%); '
                 'min_n_points 1..n; in-phase lists of 1..60 frequencies (float64 / float32 / int64): n*ref*(1+delta), ref/(n+delta) with '
@@ -903,10 +943,12 @@ def correspondence(ctx):
         'plateau_other_errors': sorted({o['error'] for _, o in pl if 'error' in o and o['error'] != 'RuntimeError'}),
         'coord_kinds': {k: sum(1 for c, _ in pl if c['coord'] == k) for k in ('float', 'float32', 'int', 'datetime')},
         'data_dtypes': count(pl, lambda co_: co_[0]['ydtype']),
+        'coordinate_layouts': count([c for c in cases if c['kind'] == 'plateau'], lambda c: c.get('layout', 'fixed')),
         'float32_coordinate_plateaus_collapsed': sum(len(o['bins']) for c, o in returned if c['coord'] == 'float32')
                                                  + sum(len(c['bins']) for c, _ in co if c['coord'] == 'float32'),
         'phase_dtypes': count(ph, lambda co_: co_[0].get('fdtype', 'float64')),
-        'int64_data': sum(1 for c, _ in pl if c['ydtype'] == 'int64'),
+        'int64_data': sum(1 for c, _ in pl if c['ydtype'] in INTS),
+        'int32_coordinates': sum(1 for c, o in pl if c.get('xdtype') == 'int32' or o.get('xdtype_now') == 'int32'),
         'series_length': {'min': sizes[0], 'median': sizes[len(sizes) // 2], 'max': sizes[-1]},
         'cases_with_a_slope_exactly_at_atol': sum(1 for c, _ in pl if c['n_at_tol'] > 0),
         'slopes_exactly_at_atol': sum(c['n_at_tol'] for c, _ in pl),
@@ -1011,11 +1053,16 @@ LEVEL_TEXT = ('Proof (Coq, axiom-free): for every series (any length >= 1, any a
               'group-id construction of find_plateaus returns exactly the maximal runs of consecutive points whose successive '
               'slopes are within the tolerance with at least min_n points - disjoint, ordered, complete, each bin the unchanged '
               'slice of the input - and returns iff the drift guard is silent; collapse gives the mean and [min, next(max)) '
-              'containing every point; filter_in_phase keeps f iff |f/ref-n|<rtol or |ref/f-n|<rtol for an integer n (exact '
-              'rationals). The hand model is tied to the code by a bit-exact binary64 (PrimFloat) correspondence executed in Coq '
-              'on every run (~1100 cases quick) including slopes exactly at / one ulp from the tolerance.')
+              'containing every point (next = +1 for int64/datetime64, nextafter in binary64, the binary32 successor for float32 '
+              'coordinates); filter_in_phase keeps f iff |f/ref-n|<rtol or |ref/f-n|<rtol for an integer n (exact '
+              'rationals). The hand model is tied to the code by a bit-exact binary64 (PrimFloat) / binary32 (Flocq) correspondence '
+              'executed in Coq on every run (~1200 evaluations quick) including slopes exactly at / one ulp from the tolerance, '
+              'float32 / int32 dtypes, and call histories on long-lived objects updated in place (each call judged on the current '
+              'content and against a fresh deep copy).')
 LEVEL_NOTE = ('Tie is correspondence (B), not translation: the model of cumsum/group/bins is hand-written and validated against '
               'the real scipp on generated series each run. Drift-guard decision and means are compared against exact rationals '
               '(band 1e-9 / 1e-12) because scipp sums in a different order. in_phase_iff is over Q; the float decision is '
-              'compared case by case. The binary64 interval theorem depends on FloatAxioms (primitive-float specs) and the real-number axioms.')
-TECHNIQUE = 'Coq proofs over an abstract carrier (lists, induction) + vm_compute correspondence with PrimFloat (binary64) and exact rationals'
+              'compared case by case. The binary64 interval theorem depends on FloatAxioms (primitive-float specs) and the real-number axioms; '
+              'the binary32 one on the real-number axioms only (Flocq Bsucc_correct / Bleb_correct at precision 24). float32 data: guard '
+              'band 5e-5, mean tolerance (n+2)*2^-24. Independence of the call history is checked on generated histories, not proved.')
+TECHNIQUE = 'Coq proofs over an abstract carrier (lists, induction) + vm_compute correspondence with PrimFloat (binary64), Flocq binary32 and exact rationals; generated call histories'
